@@ -191,7 +191,22 @@ impl Property for P {
         };
         let mut out: Vec<i128> = Vec::new();
         let mut n_rep = 0;
-        let created = guarded(|| VerifMonitoredItem::new(&now, 1, TimestampsToReturn::Both, &st, &req).and_then(|i| i.validate_filter(&w.space).map(|_| i)));
+        // which timestamps the subscriber asked for is not part of the case term: reporting must not
+        // depend on it (the model has no such input), so it is derived from the case and every
+        // setting is exercised; the reported value is compared after the same stripping
+        let ttr = [TimestampsToReturn::Both, TimestampsToReturn::Source, TimestampsToReturn::Server, TimestampsToReturn::Neither]
+            [(c.samples.len() + c.trigger as usize + (c.dval.to_bits() % 7) as usize) % 4];
+        let strip = |dv: &DataValue| -> DataValue {
+            let mut d = dv.clone();
+            match ttr {
+                TimestampsToReturn::Neither => { d.source_timestamp = None; d.source_picoseconds = None; d.server_timestamp = None; d.server_picoseconds = None; }
+                TimestampsToReturn::Source => { d.server_timestamp = None; d.server_picoseconds = None; }
+                TimestampsToReturn::Server => { d.source_timestamp = None; d.source_picoseconds = None; }
+                _ => {}
+            }
+            d
+        };
+        let created = guarded(|| VerifMonitoredItem::new(&now, 1, ttr, &st, &req).and_then(|i| i.validate_filter(&w.space).map(|_| i)));
         match created {
             Err(_) => out.push(-2),
             Ok(Err(_)) => out.push(-1),
@@ -207,7 +222,7 @@ impl Property for P {
                             n_rep += 1;
                             // the report must be exactly the sample (compare the encodings: NaN-proof)
                             let same = ns.len() == 1 && match &ns[0] {
-                                Notification::MonitoredItemNotification(m) => format!("{:?}", m.value) == format!("{:?}", dv),
+                                Notification::MonitoredItemNotification(m) => format!("{:?}", m.value) == format!("{:?}", strip(&dv)),
                                 _ => false,
                             };
                             out.push(if same { 1 } else { 2 });
@@ -217,10 +232,11 @@ impl Property for P {
             }
         }
         let kinds = |p: fn(&V) -> bool| c.samples.iter().any(|s| s.val.as_ref().map_or(false, p));
-        let tag = format!("{}-{}{}{}", ["status", "statusvalue", "statusvaluets"][c.trigger as usize],
+        let tag = format!("{}-{}{}{}-ttr{}", ["status", "statusvalue", "statusvaluets"][c.trigger as usize],
             match c.dtype { 0 => "nodeadband", 1 => "absolute", 2 => "percent", _ => "unknowntype" },
             if out == vec![-1] { "-refused" } else if n_rep <= 1 { "-quiet" } else { "" },
-            if kinds(|v| matches!(v, V::Double(f) if f.is_nan())) { "+nan" } else if kinds(|v| matches!(v, V::Text(_))) { "+text" } else if kinds(|v| matches!(v, V::Int(..))) { "+int" } else { "" });
+            if kinds(|v| matches!(v, V::Double(f) if f.is_nan())) { "+nan" } else if kinds(|v| matches!(v, V::Text(_))) { "+text" } else if kinds(|v| matches!(v, V::Int(..))) { "+int" } else { "" },
+            match ttr { TimestampsToReturn::Both => "both", TimestampsToReturn::Source => "source", TimestampsToReturn::Server => "server", _ => "neither" });
         let term = format!("(mk_case (mk_filter {} {} {}) {})", c.trigger, c.dtype, c.dval.to_bits(), coq_list(&c.samples, s_term));
         Out { tag, term, out }
     }
